@@ -64,6 +64,7 @@ class E3(object):
         self._done = set()
         self._done_idx = set()
         self.invariants = {}
+        self.unguarded_consumers = {}
         self.counts = {"fk_delete": 0, "fk_insert": 0, "unique": 0,
                        "child_delete": 0, "index": 0, "parent_insert": 0}
         self.children = {}
@@ -196,6 +197,10 @@ class E3(object):
                     return True, "child delete keyed by the same value"
                 if ceq is None and self._in_subselect(it, f, ptab, pk, {pk: key}):
                     return True, "child delete keyed by sub-select on the parent key"
+            # idiom 4: for r in SELECT * FROM C WHERE f=key: DELETE FROM C WHERE cpk=r[cpk]
+            r4 = self._loop_over_children(key, ptab, ctab, f, pk, prior)
+            if r4:
+                return True, r4
             # idiom 3: collect-then-delete loops
             if key[0] == "elem":
                 r = self._idiom3(key, ptab, ctab, f, pk, prior)
@@ -255,6 +260,47 @@ class E3(object):
         if not found:
             return None
         return "loop over the selected parent rows deletes their children first"
+
+    def _loop_over_children(self, key, ptab, ctab, f, pk, prior):
+        ctable = self.schema.tables[ctab]
+        cpk = ctable.pk[0] if ctable.pk else None
+        if cpk is None:
+            return None
+        for it in prior:
+            if it["k"] != "loop" or not it["iter"]:
+                continue
+            rows = strip_wrappers(it["iter"])
+            if rows[0] != "rows":
+                continue
+            sel = None
+            for x in prior:
+                if x["k"] == "sql" and x["site"] == rows[1]:
+                    sel = x
+            if sel is None or sel["stmt"].table != ctab or \
+                    sel["binds"]["where_eq"] != {f: key}:
+                continue
+            good = True
+            for alt in it["alts"]:
+                if alt["out"] != "normal":
+                    good = False
+                    break
+                found = False
+                for x, _ in flat_events(alt["events"]):
+                    if x["k"] == "sql" and x["stmt"].kind == "delete" and \
+                            x["stmt"].table == ctab:
+                        ceq = x["binds"]["where_eq"]
+                        if ceq and set(ceq) == {cpk}:
+                            v = ceq[cpk]
+                            if v[0] == "sub" and v[2] == ("const", cpk) and \
+                                    v[1][0] == "elem" and strip_wrappers(v[1][1]) == rows:
+                                found = True
+                if not found:
+                    good = False
+                    break
+            if good and it["alts"]:
+                return ("every `%s` row selected by %s = the parent key is deleted in "
+                        "a loop of the same transaction" % (ctab, f))
+        return None
 
     def _idiom3(self, key, ptab, ctab, f, pk, prior):
         """parent delete keyed by elem(collP); an earlier loop over collC deletes
@@ -594,6 +640,8 @@ class E3(object):
                 return
             reasons = self.invariants[inv]
             ok = not reasons
+            if not ok:
+                self.unguarded_consumers.setdefault(inv, []).append(construct)
             self.add("index", construct + " <- %s" % construct_of(sel), e, ok,
                      ("relies on the invariant 'every `%s` row has a `%s` row', which is "
                       "crash-stable" % inv) if ok else
